@@ -1,13 +1,16 @@
 """mh update T-route (tools/gen_mhupdate.py -> Gen/MhUpdate.lean -> GenProps/MhUpdate.lean), used by C05 and C10."""
 import os, re, sys
 sys.path.insert(0, os.path.dirname(os.path.abspath(__file__)))
-import vlib, gen_mhupdate, gen_mhfin, gen_murmur
+import vlib, gen_mhupdate, gen_mhfin, gen_murmur, gen_mhinit
 
 THMS_TAIL = ["IsalVerif.GenProps.MhTail.all_canon", "IsalVerif.GenProps.MhTail.all_count", "IsalVerif.GenProps.MhTail.mhtail_current",
              "IsalVerif.MhTailC.canon_tail", "IsalVerif.MhTailC.tailBlocks_is_standard", "IsalVerif.GenProps.MhTail.mhtail_is_standard"]
 THMS_MUR = ["IsalVerif.GenProps.Murmur.all_canon", "IsalVerif.GenProps.Murmur.both_present", "IsalVerif.GenProps.Murmur.murblock_current",
             "IsalVerif.GenProps.Murmur.murtail_current", "IsalVerif.MurC.canon_block_step", "IsalVerif.MurC.canon_tail_arith",
             "IsalVerif.MurC.murmurTail_eq"]
+THMS_INIT = ["IsalVerif.GenProps.MhInit.all_canon", "IsalVerif.GenProps.MhInit.all_present", "IsalVerif.GenProps.MhInit.stitched_init_current",
+             "IsalVerif.GenProps.MhInit.mh_init_current", "IsalVerif.MhInitC.canon_sha1", "IsalVerif.MhInitC.canon_sha256",
+             "IsalVerif.MhInitC.canon_stitched"]
 THMS_FIN = ["IsalVerif.GenProps.MhFin.all_canon", "IsalVerif.GenProps.MhFin.all_count", "IsalVerif.GenProps.MhFin.mhfin_current",
             "IsalVerif.GenProps.MhFin.stitched_present", "IsalVerif.GenProps.MhFin.blockbase_current",
             "IsalVerif.GenProps.MhFin.blockbase_present", "IsalVerif.MhFinC.canon_blockbase", "IsalVerif.MhFinC.canon_fin", "IsalVerif.MhFinC.mur_reads_buffered"]
@@ -47,6 +50,19 @@ def obligations(chk, tier):
                       {"kind": "obligation", "obligation": name, "detail": detail,
                        "note": "a finalize function (what is handed to murmur3 / the multi-hash tail, which words are copied out) is no "
                                "longer the proved one; the implementation is searched by the correspondence sweep of this check"}, no_input=True)
+    try:
+        irows = gen_mhinit.main([os.path.join(b, "src"), vlib.LEAN])
+        ierr = ""
+    except Exception as e:
+        irows, ierr = [], str(e)[:300]
+    chk.oblige("translator: %d multi-hash init functions -> Gen/MhInit.lean" % len(irows), bool(irows) and not ierr, ierr)
+    ifailed = vlib.lean_obligations(chk, "IsalVerif.GenProps.MhInit", THMS_INIT) if irows else [("gen_mhinit", ierr)]
+    chk.cov["mh_init"] = {"functions": len(irows), "theorems": THMS_INIT}
+    for name, detail in ifailed:
+        chk.violation("Lean obligation no longer checks: %s" % name,
+                      {"kind": "obligation", "obligation": name, "detail": detail,
+                       "note": "an init function (zeroed context, initial interim digests, murmur seed words) is no longer the proved "
+                               "one; the implementation is searched by the correspondence sweep of this check"}, no_input=True)
     mfailed = []
     if chk.pid == "C10":
         try:
@@ -82,4 +98,4 @@ def obligations(chk, tier):
                            "note": "the translated function differs from MhC.canon (or calls another family's block function); the "
                                    "implementation is searched by the correspondence sweep of this check"},
                           no_input=True, match={"fn": f, "monitor": "mh-update"})
-    return not failed and not tfailed and not ffailed and not mfailed
+    return not failed and not tfailed and not ffailed and not mfailed and not ifailed
